@@ -91,6 +91,9 @@ func (E *Engine) mergeStates(states []*State, guards []*Term) *State {
 		for i := len(states) - 2; i >= 0; i-- {
 			v = tb.Ite(guards[i], E.get(states[i], k, srt), v)
 		}
+		if k == allocKey {
+			tb.noSyms[v] = true
+		}
 		out.heap[k] = v
 	}
 	out.reach = tb.Or(guards...)
@@ -107,21 +110,51 @@ func (E *Engine) cellKey(s Sort) (string, Sort) {
 	return "Cell$" + sanitize(string(s)), ArraySort(SRef, s)
 }
 
-func (E *Engine) arrKey(elem Sort) (string, Sort) {
-	return "Arr$" + sanitize(string(elem)), ArraySort(SRef, ArraySort(SInt, elem))
+// Heap arrays for slices and maps are keyed by the Go element / map type, so that containers of
+// different Go types never alias (a map[TriggerReason]int is never a map[string]struct{}).
+func (E *Engine) arrKey(elem types.Type, env TEnv) (string, Sort) {
+	elem = E.subst(elem, env)
+	return "Arr$" + typeName(types.Unalias(elem)), ArraySort(SRef, ArraySort(SInt, E.sortOf(elem, nil)))
 }
 
-func (E *Engine) mdomKey(k Sort) (string, Sort) {
-	return "Mdom$" + sanitize(string(k)), ArraySort(SRef, ArraySort(k, SBool))
+func mapTypeName(mt *types.Map) string {
+	return typeName(types.Unalias(mt.Key())) + "$" + typeName(types.Unalias(mt.Elem()))
 }
 
-func (E *Engine) mvalKey(k, v Sort) (string, Sort) {
-	return "Mval$" + sanitize(string(k)) + "$" + sanitize(string(v)), ArraySort(SRef, ArraySort(k, v))
+func (E *Engine) mdomKey(mt *types.Map, env TEnv) (string, Sort) {
+	mt = E.subst(mt, env).(*types.Map)
+	return "Mdom$" + mapTypeName(mt), ArraySort(SRef, ArraySort(E.sortOf(mt.Key(), nil), SBool))
 }
 
-const allocKey = "alloc"
+func (E *Engine) mvalKey(mt *types.Map, env TEnv) (string, Sort) {
+	mt = E.subst(mt, env).(*types.Map)
+	return "Mval$" + mapTypeName(mt), ArraySort(SRef, ArraySort(E.sortOf(mt.Key(), nil), E.sortOf(mt.Elem(), nil)))
+}
 
-func (E *Engine) allocArr(st *State) *Term { return E.get(st, allocKey, ArraySort(SRef, SBool)) }
+// Allocation is modelled by birth dates: birth(r) is the (immutable) allocation time of the object
+// r, clock is the time of the state. An object exists in a state iff birth(r) <= clock; a new
+// object gets birth = clock+1. Every reference read from memory or received as input exists.
+const allocKey = "clock"
+
+func (E *Engine) clock(st *State) *Term {
+	c := E.get(st, allocKey, SInt)
+	if c.kind == kConst {
+		E.tb.AddTermAxiom("clock-nonneg:"+c.atom, E.tb.Cmp(">=", c, E.tb.Int(0)), c)
+	}
+	return c
+}
+
+func (E *Engine) birth(r *Term) *Term {
+	tb := E.tb
+	b := tb.UF("birth", SInt, r)
+	tb.AddAxiom("birth-null", tb.Eq(tb.App("birth", SInt, E.null()), tb.Int(0)), "birth")
+	return b
+}
+
+// exists: r is nil or refers to an object allocated no later than state st.
+func (E *Engine) exists(st *State, r *Term) *Term {
+	return E.tb.Cmp("<=", E.birth(r), E.clock(st))
+}
 
 // subRef is the reference of a struct-typed field embedded in the object at p.
 func (E *Engine) subRef(si *structInfo, i int, p *Term) *Term {
@@ -129,9 +162,11 @@ func (E *Engine) subRef(si *structInfo, i int, p *Term) *Term {
 	r := E.tb.UF(n, SRef, p)
 	inv := "inv" + n
 	E.tb.DeclFunc(inv, []Sort{SRef}, SRef)
+	E.tb.DeclFunc("birth", []Sort{SRef}, SInt)
 	x := E.tb.BVar("x", SRef)
 	E.tb.AddAxiom("inj:"+n, E.tb.Forall([]*Term{x}, E.tb.And(
 		E.tb.Eq(E.tb.App(inv, SRef, E.tb.App(n, SRef, x)), x),
+		E.tb.Eq(E.tb.App("birth", SInt, E.tb.App(n, SRef, x)), E.tb.App("birth", SInt, x)),
 		E.tb.Not(E.tb.Eq(E.tb.App(n, SRef, x), E.null())))), n)
 	return r
 }
@@ -223,10 +258,10 @@ func (E *Engine) loadObj(st *State, p *Term, t types.Type, env TEnv) *Term {
 				args[i] = E.tb.Select(E.get(st, k, ks), p)
 			}
 		}
-		return E.tb.App(si.ctor, si.sort, args...)
+		return E.mkStruct(si, args)
 	}
 	if arr, ok := types.Unalias(t).Underlying().(*types.Array); ok {
-		k, ks := E.arrKey(E.sortOf(arr.Elem(), env))
+		k, ks := E.arrKey(arr.Elem(), env)
 		return E.tb.Select(E.get(st, k, ks), p)
 	}
 	k, ks := E.cellKey(E.sortOf(t, env))
@@ -254,7 +289,7 @@ func (E *Engine) storeObj(st *State, p *Term, t types.Type, v *Term, env TEnv) {
 		return
 	}
 	if arr, ok := types.Unalias(t).Underlying().(*types.Array); ok {
-		k, ks := E.arrKey(E.sortOf(arr.Elem(), env))
+		k, ks := E.arrKey(arr.Elem(), env)
 		E.set(st, k, E.tb.Store(E.get(st, k, ks), p, v))
 		return
 	}
@@ -278,7 +313,7 @@ func (E *Engine) objKeys(t types.Type, env TEnv, out map[string]bool) {
 		return
 	}
 	if arr, ok := types.Unalias(t).Underlying().(*types.Array); ok {
-		k, ks := E.arrKey(E.sortOf(arr.Elem(), env))
+		k, ks := E.arrKey(arr.Elem(), env)
 		E.heapSorts[k] = ks
 		out[k] = true
 		return
@@ -291,18 +326,21 @@ func (E *Engine) objKeys(t types.Type, env TEnv, out map[string]bool) {
 // newRef allocates a fresh reference.
 func (E *Engine) newRef(st *State, hint string, spec bool) *Term {
 	r := E.tb.Fresh("&"+hint, SRef)
-	al := E.allocArr(st)
+	c := E.clock(st)
+	nc := E.tb.Arith("+", c, E.tb.Int(1))
+	E.tb.noSyms[nc] = true
 	if !spec {
-		E.addFact(st, E.tb.And(E.tb.Not(E.tb.Select(al, r)), E.tb.Not(E.tb.Eq(r, E.null()))))
+		E.addFact(st, E.tb.Eq(E.birth(r), nc))
 	}
-	E.set(st, allocKey, E.tb.Store(al, r, E.tb.True()))
+	E.set(st, allocKey, nc)
 	return r
 }
 
 // ---- maps ----
 
-func (E *Engine) mapDom(st *State, m *Term, k Sort) *Term {
-	key, ks := E.mdomKey(k)
+func (E *Engine) mapDom(st *State, m *Term, mt *types.Map, env TEnv) *Term {
+	key, ks := E.mdomKey(mt, env)
+	k := E.sortOf(mt.Key(), env)
 	d := E.tb.Select(E.get(st, key, ks), m)
 	if m == E.null() {
 		return E.tb.ConstArray(ArraySort(k, SBool), E.tb.False())
@@ -313,8 +351,8 @@ func (E *Engine) mapDom(st *State, m *Term, k Sort) *Term {
 	return E.tb.Ite(E.tb.Eq(m, E.null()), E.tb.ConstArray(ArraySort(k, SBool), E.tb.False()), d)
 }
 
-func (E *Engine) mapVal(st *State, m *Term, k, v Sort) *Term {
-	key, ks := E.mvalKey(k, v)
+func (E *Engine) mapVal(st *State, m *Term, mt *types.Map, env TEnv) *Term {
+	key, ks := E.mvalKey(mt, env)
 	return E.tb.Select(E.get(st, key, ks), m)
 }
 
